@@ -10,6 +10,14 @@
 #ifndef K
 #define K 1
 #endif
+/* initial buffer size handed to the real svt_od_ec_enc_init: 64 by default; with -DSMALL_INIT a size of 1..3 entries (one query each), so that
+ * both buffer-growth paths (pre-carry buffer in od_ec_enc_normalize / svt_od_ec_enc_done, byte buffer in svt_od_ec_enc_done)
+ * are taken while earlier output is already stored (in the encoder they are first taken after 62025 bytes of one tile) */
+#ifdef SMALL_INIT
+#define INIT_SIZE SMALL_INIT   /* concrete per query: a symbolic size made realloc's copy symbolic-length (11 GB, undecided) */
+#else
+#define INIT_SIZE 64
+#endif
 
 /* validity predicate V of an inverse CDF with n symbols (AV1 spec 8.2.6 / comments of svt_od_ec_encode_cdf_q15) */
 static int cdf_valid(const AomCdfProb *c, int n) {
@@ -31,7 +39,7 @@ void rt_sym(void) {
     int n[K], s[K];
     int upd = vinbool();
     memset(&w, 0, sizeof w);
-    svt_od_ec_enc_init(&w.ec, 64);
+    svt_od_ec_enc_init(&w.ec, INIT_SIZE);
     V_ASSUME(w.ec.buf != NULL && w.ec.precarry_buf != NULL);
     w.allow_update_cdf = (uint8_t)upd;
     for (int k = 0; k < K; k++) {
@@ -62,7 +70,7 @@ void rt_bool(void) {
     AomWriter w; SvtReader r;
     int p[K], b[K];
     memset(&w, 0, sizeof w);
-    svt_od_ec_enc_init(&w.ec, 64);
+    svt_od_ec_enc_init(&w.ec, INIT_SIZE);
     V_ASSUME(w.ec.buf != NULL && w.ec.precarry_buf != NULL);
     for (int k = 0; k < K; k++) {
         p[k] = (int)vin_range(1, 255); b[k] = vinbool();
@@ -91,7 +99,7 @@ void rt_literal(void) {
     int v = (int)vin_range(0, (1 << LBITS) - 1);
     V_ASSUME(v < (1 << bits));
     memset(&w, 0, sizeof w);
-    svt_od_ec_enc_init(&w.ec, 64);
+    svt_od_ec_enc_init(&w.ec, INIT_SIZE);
     V_ASSUME(w.ec.buf != NULL && w.ec.precarry_buf != NULL);
     aom_write_literal(&w, v, bits);
     uint32_t nbytes = 0;
@@ -175,6 +183,38 @@ void lem_normalize(void) {
     V_ASSERT((uint64_t)enc.offs >= (uint64_t)offs && (uint64_t)enc.offs <= (uint64_t)offs + 2, "byte offset advances by 0..2 and is stored exactly");
     V_ASSERT((int64_t)svt_od_ec_enc_tell(&enc) >= tell0, "bit count never decreases");
     free(enc.precarry_buf);
+    V_END();
+}
+/* LEM-capacity (2-safety on buffer capacity): from an arbitrary writer state in its invariant that already holds 0..3 pre-carry
+ * entries, one boolean followed by svt_od_ec_enc_done produces the same bytes whether the buffers are roomy (no growth) or
+ * tight (TIGHT entries: the pre-carry buffer grows in od_ec_enc_normalize and/or svt_od_ec_enc_done while holding output,
+ * the byte buffer grows in svt_od_ec_enc_done). */
+#ifndef TIGHT
+#define TIGHT 2
+#endif
+static void cap_state(OdEcEnc *e, uint32_t storage, uint32_t offs, const uint16_t *ent, int16_t cnt, uint16_t rng, OdEcWindow low) {
+    memset(e, 0, sizeof *e);
+    e->precarry_storage = storage; e->precarry_buf = (uint16_t *)malloc(sizeof(uint16_t) * storage);
+    e->storage = storage; e->buf = (uint8_t *)malloc(storage);
+    V_ASSUME(e->precarry_buf != NULL && e->buf != NULL);
+    for (uint32_t i = 0; i < 3; i++) if (i < offs) e->precarry_buf[i] = ent[i];
+    e->offs = offs; e->cnt = cnt; e->rng = rng; e->low = low;
+}
+void lem_capacity(void) {
+    OdEcEnc a, b; uint16_t ent[3];
+    uint32_t offs = (uint32_t)vin_range(0, TIGHT);
+    for (int i = 0; i < 3; i++) { ent[i] = vin16(); V_ASSUME(ent[i] <= 0x1FF); }   /* a byte plus its carry bit */
+    int16_t cnt = (int16_t)vin_range(-9, -1); uint16_t rng = (uint16_t)vin_range(32768, 65535); OdEcWindow low = (OdEcWindow)vin32();
+    V_ASSUME(((uint64_t)low >> (cnt + 25)) == 0);
+    cap_state(&a, 64, offs, ent, cnt, rng, low); cap_state(&b, TIGHT, offs, ent, cnt, rng, low);
+    int val = vinbool(); unsigned f = (unsigned)vin_range(1, 32767);
+    svt_od_ec_encode_bool_q15(&a, val, f); svt_od_ec_encode_bool_q15(&b, val, f);
+    uint32_t na = 0, nb = 0;
+    uint8_t *da = svt_od_ec_enc_done(&a, &na), *db = svt_od_ec_enc_done(&b, &nb);
+    V_ASSERT(da != NULL && db != NULL, "writer finishes without error");
+    V_ASSERT(na == nb, "number of bytes emitted does not depend on the buffer capacity");
+    for (uint32_t i = 0; i < 8; i++) if (i < na && i < nb) V_ASSERT(da[i] == db[i], "bytes emitted do not depend on the buffer capacity (output held in the buffers survives their growth)");
+    V_ASSERT(na <= 8, "at most 3 stored + 2 + 2 bytes");
     V_END();
 }
 #ifndef VERIF_CBMC
